@@ -54,8 +54,10 @@ def record(args, ctx):
             trace.append({"op": "observe", "k": k})
             continue
         p = rng.choice(params)
-        v = rng.choice([1, 2, 3] if p in ("P_models", "B_models", "L_models") else [1] if p in S.REPOINT else [1, 2])
+        v = rng.choice([1, 2, 3] if p in ("P_models", "B_models", "L_models", "P_comp") else [1] if p in S.REPOINT else [1, 2])
         via = rng.choice(VIAS.get(p, ["assign"]))
+        if p == "P_comp" and v == 3 and via == "add":
+            via = "set"                   # Scene.tla: ViaOK - adding the species of the empty composition adds nothing
         del _LOG[:]
         try:
             S.apply(sc, {"op": "set", "p": p, "v": v, "via": via})
